@@ -596,6 +596,19 @@ func (g *gen) reflWhole(m *Message) {
 	g.p("\tvhAssertEq_%s(\"state\", exp, x)", n)
 	g.p("}")
 	g.p("")
+	g.p("// Range stops as soon as the callback returns false: no further call, whatever field it stopped at")
+	g.p("func VH_C08_%s__rangestop() {", n)
+	g.p("\tx := &%s{}", n)
+	g.p("\tvhFill_%s(x)", n)
+	g.p("\tstopAt := vhChoice(\"stopAt\", %d)", len(m.All)+1)
+	g.p("\tcalls := 0")
+	g.p("\tx.ProtoReflect().Range(func(d protoreflect.FieldDescriptor, v protoreflect.Value) bool {")
+	g.p("\t\tcalls++")
+	g.p("\t\treturn calls <= stopAt")
+	g.p("\t})")
+	g.p("\tvhAssert(\"range.stops\", calls <= stopAt+1)")
+	g.p("}")
+	g.p("")
 	g.p("// unknown fields through reflection")
 	g.p("func VH_C08_%s__unknown() {", n)
 	g.p("\tx := &%s{}", n)
